@@ -58,6 +58,9 @@ func rngSame() bool { panic("spec only") }
 // rngOnly(src): no source other than src was drawn from between the old and the current state.
 func rngOnly(src *rand.PCGSource) bool { panic("spec only") }
 
+// sharedBuiltin(p): p is one of the package's shared built-in values (entries of builtinValues / builtinProto).
+func sharedBuiltin(p any) bool { panic("spec only") }
+
 // isFresh(x): x is nil or was allocated after function entry.
 func isFresh(x any) bool { panic("spec only") }
 
@@ -669,6 +672,11 @@ typeinv f *NativeFunctionData : f.NativeFunc != nil
 typeinv c *customDiceCompiled : c.item != nil
 typeinv it *customDiceItem : it.fn != nil
 
+nonnil-elems *VMValue
+
+mapvals builtinValues v *VMValue : v != nil && v.TypeId == VMTypeNativeFunction && sharedBuiltin(v)
+mapvals builtinProto d *VMDictValue : d != nil && d.TypeId == VMTypeDict
+
 freshonly VMValue.TypeId VMValue.Value ByteCode.T ByteCode.Value customDiceCompiled.item customDiceCompiled.text customDiceCompiled.groups customDiceCompiled.payload customDiceItem.fn
 
 // ---- small constructors and accessors: callers execute the body (inline) ----
@@ -878,6 +886,29 @@ func (*Context).evaluate
   ghost at loop 3 begin: ghostAssume(e.code[opIndex].T != typeFStringBlockPop || e.top >= fstrBlockStack[fstrBlockIndex-1], "bytecode: a template block never pops below the height saved by its fstr.block.push (C08)")
   ghost at loop 3 begin: ghostAssume(e.code[opIndex].T != typeBlockPop || e.top >= blockStack[blockIndex-1], "bytecode: a block never pops below the height saved by its block.push (C08)")
   ghost at loop 3 end: if code.T == typeDiceInit { ghostAssert(diceStateIndex >= 0 && diceStates[diceStateIndex].times == 1 && diceStates[diceStateIndex].isKeepLH == 0 && diceStates[diceStateIndex].min == nil && diceStates[diceStateIndex].max == nil) }
+
+// ---- types_serialization.go ----
+
+func (*VMValue).UnmarshalJSON
+  props C10 C09
+  exempt v when result != nil
+  requires !sharedBuiltin(v)
+  loop 1
+    invariant forall k in [0, rangeIdx): v1.Value.List[k] != nil
+  ensures [C10] result == nil ==> wfValue(v)
+  ensures [C10] result == nil && v.TypeId == VMTypeArray ==> forall k in [0, len(v.Value.(*ArrayData).List)): v.Value.(*ArrayData).List[k] != nil
+  ensures [C10] result == nil ==> v.TypeId == VMTypeInt || v.TypeId == VMTypeFloat || v.TypeId == VMTypeString || v.TypeId == VMTypeNull || v.TypeId == VMTypeComputedValue || v.TypeId == VMTypeArray || v.TypeId == VMTypeDict || v.TypeId == VMTypeFunction || v.TypeId == VMTypeNativeFunction || v.TypeId == VMTypeNativeObject
+
+func VMValueFromJSON
+  props C10 C09
+  exempt result0 when result1 != nil
+  ensures [C10] result0 != nil && (result1 == nil ==> wfValue(result0))
+
+func (*VMValue).ToJSONRaw
+  props C09 C10
+  nilrecv
+  ensures [C09] v == nil ==> result1 != nil
+  ensures [C09] result1 == nil ==> len(result0) > 0 || true
 
 func cloneStrings
   props C17
